@@ -9,11 +9,17 @@ use std::alloc::Allocator;
 /// stubs.  `push_nogrow` asserts that this capacity is never exceeded; the
 /// assertion carries the marker KSTUB-BOUND, which the driver classifies as a
 /// *bound check* (failure => INCONCLUSIVE, never green, never a VIOLATION).
-pub const CAP: usize = 24;
+pub const CAP: usize = 16;
 
 /// replaces `std::vec::Vec::new`: same value, pre-allocated capacity.
 pub fn vec_new_cap<T>() -> Vec<T> {
     Vec::with_capacity(CAP)
+}
+
+/// as vec_new_cap with a small capacity, for harnesses whose element type is large
+/// (FragmentTree): fewer bytes for CBMC to model.  Same overflow assertion applies.
+pub fn vec_new_small<T>() -> Vec<T> {
+    Vec::with_capacity(4)
 }
 
 /// replaces `std::vec::Vec::push`: identical whenever len < capacity.
@@ -105,3 +111,9 @@ pub fn any_in(lo: i32, hi: i32) -> i32 {
     kani::assume(v >= lo && v <= hi);
     v
 }
+
+/// replaces `std::io::_print` (the body of `println!`): printing is not the
+/// subject of any harness.  svgbob prints in `util::ord`'s NaN branch and in a
+/// few debugging spots; the formatting code of `{}` on f32 is very expensive to
+/// execute symbolically.
+pub fn noop_print(_args: std::fmt::Arguments<'_>) {}
